@@ -34,6 +34,7 @@ import (
 	"go/token"
 	"os"
 	"strings"
+	"time"
 
 	"github.com/cosmos72/gomacro/base/output"
 	"github.com/cosmos72/gomacro/go/etoken"
@@ -89,9 +90,13 @@ type c25Case struct {
 }
 
 func c25Print(fset *token.FileSet, node interface{}) (string, error) {
+	return c25PrintCfg(&c25Config, fset, node)
+}
+
+func c25PrintCfg(cfg *printer.Config, fset *token.FileSet, node interface{}) (string, error) {
 	var buf bytes.Buffer
 	var err error
-	if p := core.Catch(func() { err = c25Config.Fprint(&buf, fset, node) }); p != nil {
+	if p := core.Catch(func() { err = cfg.Fprint(&buf, fset, node) }); p != nil {
 		return "", fmt.Errorf("printer panics: %v", p)
 	}
 	return buf.String(), err
@@ -149,38 +154,47 @@ func firstDiffLine(a, b string) string {
 	return "(equal)"
 }
 
-// c25CheckFile is part A for one file.
-func c25CheckFile(c *core.Ctx, pf *parsedFile) {
+// c25CheckFile is part A for one file with the printer configuration base/output uses.
+func c25CheckFile(c *core.Ctx, pf *parsedFile) { c25CheckFileCfg(c, pf, 0) }
+
+// c25CheckFileCfg is part A for one file under printer configuration c25Configs[cfgIdx]
+// (configurations other than 0 are only used for the literal files of part L; they get their own signature class).
+func c25CheckFileCfg(c *core.Ctx, pf *parsedFile, cfgIdx int) {
+	cfg := &c25Configs[cfgIdx]
+	A := "A"
+	if cfgIdx != 0 {
+		A = "A(" + c25ConfigNames[cfgIdx] + ")"
+	}
 	file, decls := c25FileOf(pf.Nodes)
 	if file == nil {
 		c.Count("A_files_not_package+decls", 1)
 		return
 	}
 	c.Eval(1)
-	cas := c25Case{Part: "A", File: pf.Path}
-	p1, err := c25Print(&pf.Fset.FileSet, file)
+	cas := c25Case{Part: "A", File: pf.Path, Sub: cfgIdx}
+	p1, err := c25PrintCfg(cfg, &pf.Fset.FileSet, file)
 	if err != nil {
-		c25Viol(c, "C25|A|print-error", fmt.Sprintf("%s: printer fails: %v", pf.Path, err), cas)
+		c25Viol(c, "C25|"+A+"|print-error", fmt.Sprintf("%s: printer fails: %v", pf.Path, err), cas)
 		return
 	}
 	// reference reparse: standard parser
 	sset := token.NewFileSet()
 	std, err := stdparser.ParseFile(sset, "p1.go", p1, stdparser.SkipObjectResolution)
 	if err != nil {
-		c25Viol(c, "C25|A|output-not-valid-go", fmt.Sprintf("%s: printed file is rejected by go/parser: %v", pf.Path, err), cas)
+		c25Viol(c, "C25|"+A+"|output-not-valid-go", fmt.Sprintf("%s: printed file is rejected by go/parser: %v", pf.Path, err), cas)
 		return
 	}
 	if std.Name.Name != file.Name.Name {
-		c25Viol(c, "C25|A|package-name", fmt.Sprintf("%s: package %s printed as %s", pf.Path, file.Name.Name, std.Name.Name), cas)
+		c25Viol(c, "C25|"+A+"|package-name", fmt.Sprintf("%s: package %s printed as %s", pf.Path, file.Name.Name, std.Name.Name), cas)
 	}
 	if len(std.Decls) != len(decls) {
-		c25Viol(c, "C25|A|decl-count", fmt.Sprintf("%s: %d declarations, reparsed %d", pf.Path, len(decls), len(std.Decls)), cas)
+		c25Viol(c, "C25|"+A+"|decl-count", fmt.Sprintf("%s: %d declarations, reparsed %d", pf.Path, len(decls), len(std.Decls)), cas)
 		return
 	}
 	for i := range decls {
 		if d := astDiff(decls[i], std.Decls[i], c25Eq); d != "" {
 			cas.Index = i
-			c25Viol(c, "C25|A|std-reparse|"+c25Class(d), fmt.Sprintf("%s decl %d: tree reparsed (go/parser) from the printed text differs: %s", pf.Path, i, d), cas)
+			c25Viol(c, "C25|"+A+"|std-reparse|"+c25Class(d), fmt.Sprintf("%s decl %d: tree reparsed (go/parser) from the printed text differs: %s", pf.Path, i, d), cas)
 			break
 		}
 	}
@@ -191,30 +205,30 @@ func c25CheckFile(c *core.Ctx, pf *parsedFile) {
 		return
 	}
 	if perr != nil {
-		c25Viol(c, "C25|A|fork-reparse-error", fmt.Sprintf("%s: forked parser rejects the printed text: %v", pf.Path, perr), cas)
+		c25Viol(c, "C25|"+A+"|fork-reparse-error", fmt.Sprintf("%s: forked parser rejects the printed text: %v", pf.Path, perr), cas)
 		return
 	}
 	file2, decls2 := c25FileOf(nodes2)
 	if file2 == nil || len(decls2) != len(decls) {
-		c25Viol(c, "C25|A|decl-count", fmt.Sprintf("%s: %d declarations, fork-reparsed %d", pf.Path, len(decls), len(decls2)), cas)
+		c25Viol(c, "C25|"+A+"|decl-count", fmt.Sprintf("%s: %d declarations, fork-reparsed %d", pf.Path, len(decls), len(decls2)), cas)
 		return
 	}
 	for i := range decls {
 		if d := astDiff(decls[i], decls2[i], c25Eq); d != "" {
 			cas.Index = i
-			c25Viol(c, "C25|A|fork-reparse|"+c25Class(d), fmt.Sprintf("%s decl %d: tree reparsed (forked parser) from the printed text differs: %s", pf.Path, i, d), cas)
+			c25Viol(c, "C25|"+A+"|fork-reparse|"+c25Class(d), fmt.Sprintf("%s decl %d: tree reparsed (forked parser) from the printed text differs: %s", pf.Path, i, d), cas)
 			break
 		}
 	}
-	p2, err := c25Print(&fset2.FileSet, file2)
+	p2, err := c25PrintCfg(cfg, &fset2.FileSet, file2)
 	if err != nil {
-		c25Viol(c, "C25|A|reprint-error", fmt.Sprintf("%s: printing the reparsed tree fails: %v", pf.Path, err), cas)
+		c25Viol(c, "C25|"+A+"|reprint-error", fmt.Sprintf("%s: printing the reparsed tree fails: %v", pf.Path, err), cas)
 		return
 	}
 	if p2 != p1 {
-		c25Viol(c, "C25|A|not-idempotent", fmt.Sprintf("%s: printing the reparsed tree gives different text: %s", pf.Path, firstDiffLine(p1, p2)), cas)
+		c25Viol(c, "C25|"+A+"|not-idempotent", fmt.Sprintf("%s: printing the reparsed tree gives different text: %s", pf.Path, firstDiffLine(p1, p2)), cas)
 	}
-	c.Nontrivial("A|" + pf.Path)
+	c.Nontrivial(A + "|" + pf.Path)
 	c.Count("A_files", 1)
 	c.Count("A_decls", len(decls))
 	c.Count("A_printed_bytes", len(p1))
@@ -411,6 +425,7 @@ func c25Run(c *core.Ctx) {
 	c.Rule("part A: every valid corpus file printed as a file, reparsed by go/parser and by the forked parser, compared declaration by declaration, reprinted; " +
 		"part S: every top-level declaration and every statement directly inside a function body through base/output.Stringer, reparsed and compared; " +
 		"part B: every corpus declaration after MacroExpandCodewalk; parts C/D: every tree produced by the C20 macro programs and C21 quasiquote templates; " +
+		"part L: generated files = every literal spelling (INT/FLOAT/IMAG/CHAR/STRING/raw STRING; the textual ones with every raw byte class a token may contain: TAB, VT, FF, CR, blanks, controls, line breaks and trailing blanks in raw strings...) x 30 syntactic positions, plus all ordered pairs of 14 special literals in the multi-line/aligned positions, each through parts A (4 printer configurations), S and B; " +
 		"non-trivial = distinct files (A) / distinct printed texts (S,B,C,D) that were printed, reparsed and compared")
 	c.Assume("structural identity ignores positions (except the three flag positions), redundant ParenExpr nodes and EmptyStmt list elements: go/printer documents that it normalises these",
 		"files with type parameters / rejected by go/parser / on which the forked parser fails (C24) are skipped and counted")
@@ -442,8 +457,44 @@ func c25Run(c *core.Ctx) {
 			c.Sample(map[string]interface{}{"file": pf.Path, "decls": len(pf.Nodes)})
 		}
 	}
+	t0 := time.Now()
+	c25LiteralFiles(c, n)
+	if os.Getenv("VERIF_TIMING") != "" { // diagnostics only
+		c.Count("timing_ms_part_L_summed_over_workers", int(time.Since(t0).Milliseconds()))
+		c.Count("timing_ms_before_part_L_summed_over_workers", int(t0.Sub(c.Start).Milliseconds()))
+	}
 	c25OperatorPairs(c)
 	c25GeneratedParts(c)
+}
+
+// part L: the literal files of c25_lits.go through parts A (four printer configurations), S and B.
+func c25LiteralFiles(c *core.Ctx, shardOffset int) {
+	srcs := c25LitSources()
+	c.Set("L_literal_files", len(srcs))
+	c.Set("L_literals", len(c25Lits()))
+	c.Set("L_positions", len(c25LitPositions))
+	c.Set("L_printer_configurations", strings.Join(c25ConfigNames, ", "))
+	for i := range srcs {
+		if !c.Mine(shardOffset + i) {
+			continue
+		}
+		if c.Expired() {
+			break
+		}
+		pf := c25Load(fmt.Sprintf("%s%d", c25LitPrefix, i))
+		c.Count("L_files_"+pf.Status, 1)
+		if pf.Status != stOK {
+			if pf.Status == stStdReject {
+				c.Count("L_generator_produced_invalid_file("+clip(pf.Detail, 80)+")", 1)
+			}
+			continue
+		}
+		for k := range c25Configs {
+			c25CheckFileCfg(c, pf, k)
+		}
+		c25CheckSingles(c, pf, -1, -1)
+		c25MacroParts(c, pf, i)
+	}
 }
 
 // part X: every adjacent operator pair — "a BINOP UNOP b" for every binary × unary operator and "UNOP UNOP a"
@@ -486,12 +537,12 @@ func c25Replay(c *core.Ctx, raw json.RawMessage) {
 	}
 	switch cas.Part {
 	case "A":
-		pf := loadCorpusFile(cas.File)
-		if pf.Status == stOK {
-			c25CheckFile(c, pf)
+		pf := c25Load(cas.File)
+		if pf.Status == stOK && cas.Sub >= 0 && cas.Sub < len(c25Configs) {
+			c25CheckFileCfg(c, pf, cas.Sub)
 		}
 	case "S":
-		pf := loadCorpusFile(cas.File)
+		pf := c25Load(cas.File)
 		if pf.Status == stOK {
 			c25CheckSingles(c, pf, cas.Index, cas.Sub)
 		}
